@@ -35,12 +35,17 @@ static nng_msg *vp_mk_qmsg(void)
 	m->m_body.ch_ptr = m->m_body.ch_buf;
 	return (m);
 }
-/* a heap ring of BUS_QSLOTS slots, each holding a real message object */
+/* a heap ring of BUS_QSLOTS slots (BUSX_INLINE: the two-slot array inside the queue object), each holding a real message object */
 static void vp_mk_ring(nni_lmq *q)
 {
+#ifdef BUSX_INLINE
+	q->lmq_msgs    = &q->lmq_buf[0];
+	q->lmq_msgs[0] = vp_mk_qmsg(); q->lmq_msgs[1] = vp_mk_qmsg();
+#else
 	q->lmq_msgs    = (nng_msg **) __CPROVER_allocate(BUS_QSLOTS * sizeof(nng_msg *), 0);
 	q->lmq_msgs[0] = vp_mk_qmsg(); q->lmq_msgs[1] = vp_mk_qmsg();
 	q->lmq_msgs[2] = vp_mk_qmsg(); q->lmq_msgs[3] = vp_mk_qmsg();
+#endif
 }
 static bus0_pipe *vp_mk_pipe(bool on)
 {
